@@ -11,6 +11,7 @@ import (
 	"context"
 
 	corestore "cosmossdk.io/core/store"
+	sdkmath "cosmossdk.io/math"
 	codectypes "github.com/cosmos/cosmos-sdk/codec/types"
 	sdk "github.com/cosmos/cosmos-sdk/types"
 
@@ -299,3 +300,12 @@ func Thorough() bool {
 func And(a, b bool) bool     { return a && b }
 func Or(a, b bool) bool      { return a || b }
 func Implies(a, b bool) bool { return !a || b }
+
+// SdkInt is an arbitrary mathematical integer as a cosmossdk.io/math.Int.
+func SdkInt(name string) sdkmath.Int {
+	v, ok := sdkmath.NewIntFromString(IntString(name))
+	if !ok {
+		return sdkmath.ZeroInt()
+	}
+	return v
+}
